@@ -208,7 +208,32 @@ def run_ops(obj, o, w):
         ("validate", lambda: obj.validate(copy.deepcopy(o))),
         ("keys", lambda: obj.keys(copy.deepcopy(o))),
         ("explain", lambda: obj.explain(copy.deepcopy(o))),
+        ("evaluate-inside-cache.disabled()", lambda: _nested(lambda: obj.evaluate(copy.deepcopy(o)), "cache")),
+        ("evaluate-inside-logging.disabled()", lambda: _nested(lambda: obj.evaluate(copy.deepcopy(o)), "logging")),
+        ("evaluate-inside-nested-mapping-handle", lambda: _nested(lambda: obj.evaluate(copy.deepcopy(o)), "mapping")),
     ]
+
+
+def _noop_type_validation(request):
+    return None
+
+
+def _nested(thunk, kind):
+    """Run inside a further handler block entered INSIDE the recording handlers: handlers installed by an
+    enclosing block stay in force for every request type the inner block does not override."""
+    import labrea.cache
+    import labrea.logging
+    from labrea import runtime
+    from labrea.type_validation import TypeValidationRequest
+
+    if kind == "cache":
+        cm = labrea.cache.disabled()
+    elif kind == "logging":
+        cm = labrea.logging.disabled()
+    else:
+        cm = runtime.handle({TypeValidationRequest: _noop_type_validation})
+    with cm:
+        return thunk()
 
 
 def check_term(label, term, dicts, res, counters):
@@ -250,6 +275,10 @@ def check_term(label, term, dicts, res, counters):
                     if a != bq:
                         fail(f"{op}-bypassed-the-runtime", o, f"[{opname}] {len(a)} calls reached {op} implementations but the {rname} handler saw {len(bq)}")
                 ns, ng, ne = len(seen.get("CacheSetRequest", [])), len(seen.get("CacheGetRequest", [])), len(seen.get("CacheExistsRequest", []))
+                if "inside" in opname:
+                    # the inner block overrides cache / log / type-validation handlers on purpose; what must
+                    # still reach the outer recording handlers are the four core operations (checked above)
+                    continue
                 if counters.cache["set"] != ns or counters.cache["exists"] != ne or counters.cache["get"] != ng + ns:
                     fail("cache-access-bypassed-the-runtime", o, f"[{opname}] MemoryCache saw {counters.cache}, handlers saw set={ns} get={ng} exists={ne}")
                 if counters.logged != len(seen.get("LogRequest", [])):
